@@ -76,6 +76,7 @@ type callPlan struct {
 	mwSrv                                                []string // processor-side middleware trace
 	mwSaw                                                []string // per middleware (innermost first): the result it saw coming back
 	via2                                                 bool     // issued through the second client
+	errBulk                                              bool     // C12: the oversize reply is an undeclared error with a long text
 	connLost                                             bool     // HTTP: the connection was lost after the server had processed the request
 	onward                                               bool     // the handler makes an onward call with the context it was given, between setting response headers
 	onwardErr                                            error
